@@ -25,6 +25,26 @@ void puthex(const unsigned char *b, size_t n)
 		printf("%02x", b[i]);
 }
 
+/* long byte strings are summarised (length, FNV-1a 32 hash, first bytes) unless VERIF_FULL=1 */
+void putsum(const unsigned char *b, size_t n)
+{
+	static int full = -1;
+	unsigned int h = 2166136261u;
+	size_t i;
+	if (full < 0)
+		full = getenv("VERIF_FULL") != NULL;
+	if (full || n <= 48) {
+		puthex(b, n);
+		return;
+	}
+	for (i = 0; i < n; i++) {
+		h ^= b[i];
+		h *= 16777619u;
+	}
+	printf("L%zu:%08x:", n, h);
+	puthex(b, 8);
+}
+
 /* virtual clock used by wrapped time() when linked with --wrap=time */
 time_t verif_now = 1000000;
 time_t __wrap_time(time_t *t);
